@@ -405,6 +405,22 @@ func c03(c *Ctx) {
 	t2 := time.Now()
 	C03Location(c)
 	c.Extra["seconds_types_codec_location"] = fmt.Sprintf("%.1f %.1f %.1f", t1.Sub(tStart).Seconds(), t2.Sub(t1).Seconds(), time.Since(t2).Seconds())
+	// requests that went through a guarded op (frames, RTP, location, extensions) and were late twice
+	for _, req := range C03SlowOps {
+		dec := firstWord(req)
+		switch dec {
+		case "decode", "c03fseq", "c03ft":
+			dec = "jt808.Decode"
+		case "c03rtp", "c03rseq", "c03rt":
+			dec = "jt1078.Decode"
+		case "ext", "seqext", "extemb", "c03et":
+			dec = "ext"
+		default:
+			dec = "location"
+		}
+		viol(c, Violation{Signature: "C03/slow/" + dec, What: "the call needed more than " + C03Deadline.String() + " twice", Input: req,
+			Observed: "slow", Required: "returns promptly"})
+	}
 	c.Extra["slowest_parse"] = r.slowest.String() + " " + r.slowReq
 	c.Extra["types"] = len(C03Types)
 	nm := 0
@@ -478,8 +494,14 @@ func c03Frames(c *Ctx, r *runner) {
 			viol(c, Violation{Signature: "C03/hang/jt808.Decode", What: "frame Decode did not return", Input: req, Observed: ans, Required: "returns promptly"})
 			return
 		}
-		for _, tail := range [][]byte{fill(32, 0xAA), fill(32, 0x7e), {0x7d, 0x02, 0x7e}} {
-			if a2 := C03FrameSeq([][]byte{f}, tail); a2 != ans {
+		for ti, tail := range [][]byte{fill(32, 0xAA), fill(32, 0x7e), {0x7d, 0x02, 0x7e}} {
+			var a2 string
+			if treq := "c03ft " + Hx(f) + " " + Hx(tail); (len(f)+ti)%4 == 0 {
+				a2 = c.Do(treq, len(f) > 2) // also a correspondence line for decode_chk_cap
+			} else {
+				a2 = RunOp(treq)
+			}
+			if a2 != ans {
 				viol(c, Violation{Signature: "C03/tail/jt808.Decode", What: "frame Decode depends on memory beyond the slice",
 					Input: "c03ft " + Hx(f) + " " + Hx(tail), Observed: Trunc(a2, 500), Required: Trunc(ans, 500)})
 			}
@@ -640,8 +662,14 @@ func c03Rtp(c *Ctx, r *runner) {
 				if fresh == "panic" {
 					viol(c, Violation{Signature: "C03/panic/jt1078.Decode", What: "jt1078 Decode or String panicked (fresh Packet)", Input: req, Observed: "panic", Required: "an error or a packet"})
 				}
-				for _, tail := range [][]byte{fill(40, 0xAA), fill(40, 0x00)} {
-					if a2 := C03RtpSeq([][]byte{in}, tail); a2 != fresh {
+				for ti, tail := range [][]byte{fill(40, 0xAA), fill(40, 0x00)} {
+					var a2 string
+					if treq := "c03rt " + Hx(in) + " " + Hx(tail); (len(in)+ti)%3 == 0 {
+						a2 = c.Do(treq, len(in) >= 16) // also a correspondence line for rtp_decode_cap
+					} else {
+						a2 = RunOp(treq)
+					}
+					if a2 != fresh {
 						viol(c, Violation{Signature: "C03/tail/jt1078.Decode", What: "jt1078 Decode depends on memory beyond the slice",
 							Input: "c03rt " + Hx(in) + " " + Hx(tail), Observed: Trunc(a2, 500), Required: Trunc(fresh, 500)})
 					}
